@@ -567,3 +567,107 @@ CLAIMS += [
           "the same depth, same end-of-sequence check, same error code, same Some/None outcome, same depth budget afterwards",
           "all 13 token kinds, arbitrary callee results and depth", configs=("fast",), also=("C12",)),
 ]
+
+
+# ----------------------------------------------------------------------------- parse_byte_list (C01/C02: every byte value)
+
+def claim_byte_list(cx, res, kf):
+    eng = C.make_engine(cx, [], loop_mode="cut", timeout_s=120, max_paths=5000)
+    eng.stable_names = True
+    NN = cx.enums["N"]
+
+    def seq(st, kind):
+        n = st.notes.get("nseq", 0) + 1
+        st.notes["nseq"] = n
+        return "%s_%d" % (kind, n)
+
+    def h_number(engine, st, fr, callee, argv, m):
+        nm = seq(st, "num")
+        err = z3.Bool(nm + "_err")
+        nd = z3.BitVec(nm + "_repr", 64)
+        c = z3.ULT(nd, bv(len(NN)))
+        engine.solver.add(c)
+        st.pc.append(c)
+        u = z3.BitVec(nm + "_u", 64)
+        num = Agg("struct", "Number", [EnumV("N", nd, {NN.index("PosInt"): [Int(u, "u64")], NN.index("NegInt"): [Int(z3.BitVec(nm + "_i", 64), "i64")],
+                                                      NN.index("Float"): [engine.sym_f64(nm + "_f")]})])
+        st.events.append(("number", nm, err, nd, u))
+        return S.mk_result(engine, err, num, Opaque("Error", "from:parse_number", {"kind": "callee"}))
+
+    def h_push(engine, st, fr, callee, argv, m):
+        st.events.append(("push", argv[1].e))
+        return UnitV()
+    P = r"^Parser::<[^>]*>::"
+    stubs = [s for s in builder_stubs(cx, eng) if "Vec::<" not in s[0].pattern]
+    eng.stubs = [(re.compile(P + r"parse_number$"), h_number), (re.compile(r"^Vec::<u8>::push$"), h_push),
+                 (re.compile(r"^Vec::<u8>::new$"), lambda *a: Blob("bytes"))] + stubs + S.COMBINATOR_STUBS + S.CORE_STUBS
+    fn = C.resolve_callee(cx, "Parser::<R>::parse_byte_list")
+    info = {}
+
+    def init(e, st, fr):
+        ref, cons, ov = K.parser_state(cx, e, st)
+        fr.locals[1] = ref
+        close = Int(z3.BitVec("close", 8), "u8")
+        fr.locals[2] = close
+        info["close"] = close.e
+        st.notes["in"] = ()
+        return cons
+
+    def havoc(e, st, fr, bb):
+        st.notes["in"] = st.notes["in"] + ((bb, {}),)
+        st.notes["events_at_header"] = len(st.events)
+        st.notes["nseq"] = 0
+        return []
+    eng.havoc_hook = havoc
+    terms = eng.explore(fn.name, init)
+    res.absorb(eng)
+
+    def onm(m):
+        for text, want in ((b"#u8(0 255)", "00ff"), (b"#u8(256)", None), (b"#vu8(7 #xff #b11)", "07ff03"), (b"#u8(1.5)", None),
+                           (b"#u8(-1)", None), (b"#u8()", ""), (b"#u8(12 34 )", "0c22")):
+            nat = RP.single(text, "default", "slice")
+            res.replays += 1
+            got = nat.get("v") if nat.get("t") == "bytes" else None
+            if got != want:
+                return {"replayed": True, "observed": nat, "witness": {"kind": "parse", "input_hex": text.hex(), "opts": "default", "src": "slice", "api": "single", "fast": True}}
+        return {"replayed": False}
+    seen = {"push": 0, "octet_err": 0, "end": 0}
+    for t in terms:
+        st = t.state
+        pc = list(st.pc)
+        if t.kind == "PANIC":
+            res.must_be_unsat(pc, "parse_byte_list: reachable panic", onm)
+            continue
+        if not st.notes["in"]:
+            continue
+        evs = step_events(st)
+        nums = [e for e in evs if e[0] == "number"]
+        pushes = [e for e in evs if e[0] == "push"]
+        wss = [e for e in evs if e[0] == "ws"]
+        out = outcome(eng, t)
+        if t.kind == "LOOP_BACK":
+            seen["push"] += 1
+            if len(nums) != 1 or len(pushes) != 1:
+                res.violations.append({"what": "byte-vector element step without exactly one number and one push: %r" % ([e[0] for e in evs],), "replayed": None})
+                continue
+            nd, u = nums[0][3], nums[0][4]
+            good = z3.And(z3.Not(nums[0][2]), nd == NN.index("PosInt"), z3.ULE(u, bv(255)), pushes[0][1] == z3.Extract(7, 0, u),
+                          wss[0][3], wss[0][4] != info["close"])
+            res.must_be_unsat(pc + [z3.Not(good)], "byte-vector element is not an integer 0..=255 stored as that byte", onm)
+        elif out == ("err", "ExpectedOctet"):
+            seen["octet_err"] += 1
+            nd, u = nums[0][3], nums[0][4]
+            res.must_be_unsat(pc + [nd == NN.index("PosInt"), z3.ULE(u, bv(255))], "an octet 0..=255 is rejected", onm)
+        elif out[0] == "ok":
+            seen["end"] += 1
+            res.must_be_unsat(pc + [z3.Not(z3.And(wss[0][3], wss[0][4] == info["close"]))], "byte vector ends on something other than its closer", onm)
+    for k, n in seen.items():
+        res.vacuity.append(("parse_byte_list reaches " + k, n > 0))
+
+
+CLAIMS += [
+    Claim("c01_byte_list", "C01", "quick", claim_byte_list,
+          "parse_byte_list: every element is read by the number scanner, accepted exactly when it is a non-negative integer "
+          "<= 255 and stored as that byte; the vector ends only at its closer",
+          "any number of elements (loop cut), arbitrary number-scanner results", configs=("fast",), also=("C02", "C13")),
+]
